@@ -512,7 +512,7 @@ def _run(ctx):
                 pick.append(c)
             else:
                 rest.append(c)
-        pick += rest[:max(0, 940 - len(pick))]
+        pick += rest[:max(0, 880 - len(pick))]
     for what, pred in guards.items():     # the sample must keep the interesting situations
         if replay_only:
             break
